@@ -983,6 +983,11 @@ where
                 }
             };
 
+            // If formatting a previous event on this thread was aborted by a
+            // panic (for example, in a field's `Debug` implementation) that
+            // the caller caught, the buffer was never cleared.
+            buf.clear();
+
             let ctx = self.make_ctx(ctx, event);
             if self
                 .fmt_event
